@@ -48,6 +48,7 @@ type eStats struct {
 	readErrors       int
 	scansUnderFaults int
 	commitRetries    int
+	knownKept        int
 	damageChecked    bool
 	damageDetected   bool
 	fileChecks       int
@@ -667,7 +668,21 @@ func runFaultsOpts(c *ECase, strict, files bool) (st eStats, err error) {
 		ctl.do("VerifWaitIdle", func() { ierr = db.VerifWaitIdle() })
 		if files && ierr == nil && !st.hung {
 			if msg := residue(db, fs); msg != "" {
-				return st, fmt.Errorf("after the faults healed and background work settled (faults fired: %v): %s", describeFired(fs.Fired()), msg)
+				// known finding F27: a transaction discarded while the manifest could not be replaced
+				// keeps its tables until the next successful commit installs a manifest; if the DB
+				// itself logged that and no manifest has been installed since, the leftover tables
+				// are that finding's (counted and passed over when the finding is listed as open)
+				if strings.Contains(msg, "left behind") && fs.KeptTables() {
+					if excludedSet()["f27-kept-tables-until-next-commit"] {
+						st.knownKept++
+						msg = ""
+					} else {
+						msg += " - the DB logged that it keeps the tables of a discarded transaction and no manifest has been installed since"
+					}
+				}
+				if msg != "" {
+					return st, fmt.Errorf("after the faults healed and background work settled (faults fired: %v): %s", describeFired(fs.Fired()), msg)
+				}
 			}
 			st.fileChecks++
 		}
